@@ -76,14 +76,19 @@ type machine struct {
 	watches []watch     // removed connections: nothing may be written to them any more
 	// tree: per peer the entities (besides [0]) it has at present, by what it announced; nil for a
 	// peer that has not announced itself
-	tree       map[int]map[string]bool
-	shared     bool // >= 2 peers held state on the same local feature at the moment of a removal
-	removals   int
-	mu         sync.Mutex
-	withheld   []*api.Message
-	slept      bool
-	late       int
-	reconnects int
+	tree map[int]map[string]bool
+	// localGone: local entities (keys) the application has removed from the device
+	localGone map[string]bool
+	// a teardown (connection or remote entity) of a peer that held registry entries on a server feature of a
+	// local entity removed before
+	orphanTeardowns int
+	shared          bool // >= 2 peers held state on the same local feature at the moment of a removal
+	removals        int
+	mu              sync.Mutex
+	withheld        []*api.Message
+	slept           bool
+	late            int
+	reconnects      int
 	// a late message while other peers are connected (the core event handler is subscribed)
 	lateWithOthers bool
 	// a late message on the old connection of a device that has connected again meanwhile
@@ -274,11 +279,88 @@ func (m *machine) pendingWrite(t *rapid.T) {
 
 func (m *machine) dataChange(t *rapid.T) {
 	si := rapid.IntRange(0, len(m.w.Servers)-1).Draw(t, "server")
+	if m.localServerGone(si) {
+		t.Skip("the application has removed the entity of this feature")
+	}
 	f := gen.ByFunction(m.w.Servers[si].Writable)
 	m.w.Servers[si].F.SetData(f.Fn, refmodel.Payload(f, listgen.Items(t, f, 2, gen.Opt{}, "items")))
 	m.logf("SetData server#%d", si)
 	m.ops = append(m.ops, "data")
 	m.checkWatches(t, "data change")
+}
+
+// localServerGone: the application has removed the local entity of server feature #si.
+func (m *machine) localServerGone(si int) bool {
+	return m.localGone[entKey(regs.ServerRefs[si].Ent)]
+}
+
+// orphans counts the registry entries of a peer (optionally: of the given entities of that peer
+// only) whose local server feature belongs to a local entity the application has removed.
+func (m *machine) orphans(s snap, ents []string) int {
+	n := 0
+	for _, e := range append(append([]string{}, s.Subs...), s.Binds...) {
+		parts := strings.Split(e, "->")
+		inEnts := ents == nil
+		for _, g := range ents {
+			inEnts = inEnts || inEntity(parts[0], g)
+		}
+		for g := range m.localGone {
+			if inEnts && inEntity(parts[1], g) {
+				n++
+			}
+		}
+	}
+	return n
+}
+
+// localEntityRemoved: the application removes one of its entities ([2] or the nested [1,1]; entity
+// [1] with the client features and the approval feature stays) from the device. What becomes of the
+// registry entries peers hold on its server features is not the statement's subject (nothing is
+// asserted here beyond the silence of removed connections); whatever is in the registries at a
+// later teardown is judged then, one removal event per entry.
+func (m *machine) localEntityRemoved(t *rapid.T) {
+	type cand struct {
+		key string
+		e   api.EntityLocalInterface
+	}
+	var cands []cand
+	for _, c := range []cand{{"[2]", m.w.Entity2}, {"[1 1]", m.w.Entity3}} {
+		if !m.localGone[c.key] {
+			cands = append(cands, c)
+		}
+	}
+	if len(cands) == 0 {
+		t.Skip("both removable local entities are gone")
+	}
+	c := cands[rapid.IntRange(0, len(cands)-1).Draw(t, "localEntity")]
+	held := 0
+	m.localGone[c.key] = true
+	for pi, p := range m.w.Peers {
+		if !p.Gone {
+			held += m.orphans(m.snapshot(pi), nil)
+		}
+	}
+	m.w.Local.RemoveEntity(c.e)
+	m.w.Sync()
+	for _, p := range m.w.Peers {
+		if !p.Gone {
+			p.Cap.Drain()
+		}
+	}
+	m.w.Events.Drain()
+	left := 0
+	for pi, p := range m.w.Peers {
+		if !p.Gone {
+			left += m.orphans(m.snapshot(pi), nil)
+		}
+	}
+	m.logf("the application removes its entity %s (registry entries of connected peers on server features of removed local entities: %d before, %d afterwards)", c.key, held, left)
+	m.ops = append(m.ops, "local-entity-removed:"+c.key)
+	world.Label("op/local-entity-removed")
+	if left > 0 {
+		world.Label("local-entity-removed/registry-entries-kept")
+	}
+	m.checkWatches(t, "the removal of a local entity by the application")
 }
 
 func (m *machine) checkWatches(t *rapid.T, when string) {
@@ -402,6 +484,10 @@ func (m *machine) disconnect(t *rapid.T) {
 	}
 	if m.sharedState(victim) {
 		m.shared = true
+	}
+	if m.orphans(before[victim], nil) > 0 {
+		m.orphanTeardowns++
+		world.Label("teardown/disconnect/entries-on-removed-local-entity")
 	}
 	m.w.Events.Drain()
 	how := "disconnect"
@@ -647,6 +733,10 @@ func (m *machine) checkCascade(t *rapid.T, victim int, before map[int]snap, gone
 	suffix, msg := "", fmt.Sprintf("entity [2] of peer%d was removed", victim+1)
 	if shape != "" {
 		suffix, msg = "/"+shape, fmt.Sprintf("the %s of peer%d by which its entities %v disappeared", shape, victim+1, gone)
+	}
+	if m.orphans(before[victim], gone) > 0 {
+		m.orphanTeardowns++
+		world.Label("teardown/entity/entries-on-removed-local-entity")
 	}
 	after := m.snapshot(victim)
 	keep := func(l []string, clientSide bool) []string {
@@ -903,7 +993,7 @@ func TestTeardown(t *testing.T) {
 		// are node management subscriptions / bindings, under an address without device part)
 		silent := rapid.SampledFrom([]int{0, 0, 0, 1, 2}).Draw(t, "unannouncedPeers")
 		world.Label(fmt.Sprintf("unannouncedPeers/%d", silent))
-		m := &machine{w: regs.NewWithUnannounced(3, silent), pending: map[int]int{}, tree: map[int]map[string]bool{}}
+		m := &machine{w: regs.NewWithUnannounced(3, silent), pending: map[int]int{}, tree: map[int]map[string]bool{}, localGone: map[string]bool{}}
 		defer m.w.Teardown()
 		for i, p := range m.w.Peers {
 			if p.Ents != nil {
@@ -937,6 +1027,7 @@ func TestTeardown(t *testing.T) {
 			"entityRemoved":     m.entityRemoved,
 			"entitiesNotified":  m.entitiesNotified,
 			"fullNotification":  m.fullNotification,
+			"localEntityGone":   m.localEntityRemoved,
 			"entityReannounced": m.entityReannounced,
 			"lateResponse":      m.lateResponse,
 			"reconnect":         m.reconnect,
@@ -962,6 +1053,9 @@ func TestTeardown(t *testing.T) {
 		}
 		m.w.Sync()
 		for si := range m.w.Servers {
+			if m.localServerGone(si) {
+				continue
+			}
 			f := gen.ByFunction(m.w.Servers[si].Writable)
 			m.w.Servers[si].F.SetData(f.Fn, refmodel.Payload(f, nil))
 		}
@@ -980,6 +1074,9 @@ func TestTeardown(t *testing.T) {
 		}
 		if m.lateWithOthers {
 			labels = append(labels, "late-message-while-others-connected")
+		}
+		if m.orphanTeardowns > 0 {
+			labels = append(labels, "teardown-with-entries-on-removed-local-entity")
 		}
 		world.Record(world.Hash(m.ops), nt, labels...)
 		if nt && world.WantSample() {
